@@ -327,7 +327,7 @@ func (x *world) subkeyOf(apreq []byte) {
 }
 
 var ops = []string{"login", "login-wrong-password", "ticket", "ticket-renewed-after-expiry", "ticket-unknown-service", "ticket-other-realm", "spnego-roundtrip", "spnego-replayed", "renewal-timer",
-	"kdc-unreachable-login", "tampered-reply-login", "tampered-reply-ticket", "change-password", "destroy"}
+	"kdc-unreachable-login", "tampered-reply-login", "tampered-reply-ticket", "change-password", "times-beyond-json-range", "destroy"}
 
 func (x *world) step(op string) {
 	cl := x.w.Client
@@ -462,6 +462,15 @@ func (x *world) step(op string) {
 		}
 		_, err := cl.ChangePasswd(x.newPw)
 		x.errOut(op, err)
+	case "times-beyond-json-range":
+		// values the API accepts and encoding/json refuses (years outside 0..9999): the JSON renderings behind
+		// Print/Diagnostics fail, and whatever is shown instead is a diagnostic surface like any other
+		far := time.Date(10000, 1, 1, 0, 0, 0, 0, time.UTC)
+		cl.Credentials.SetValidUntil(far)
+		cl.Credentials.SetAuthTime(time.Date(-1, 1, 1, 0, 0, 0, 0, time.UTC))
+		if cl.Credentials.HasKeytab() {
+			x.errOut(op, cl.Credentials.Keytab().AddEntry("other", cworld.Realm, "not-a-marker", far, 1, 17))
+		}
 	case "destroy":
 		cl.Destroy()
 	}
